@@ -138,6 +138,17 @@ DoCSwap == /\ Is("cswap") /\ CtlOk
                          /\ Has("outa") /\ Has("outb")
                          /\ e.outa = OutOf(x) /\ e.outb = OutOf(y))
 
+\* constant-time lookup of `width` consecutive entries in a table of 16*width registers;
+\* range-checked: all-zero entries when the (32-bit) index is not in 0..15
+DoLookup16 ==
+    /\ Is("lookup16")
+    /\ LET jj == FromBytesLE(e.j)
+           inr == Lt(jj, IntOf(16))
+           j == IF inr THEN ToInt(jj) ELSE 0
+       IN Observe(/\ Has("outs") /\ Len(e.outs) = e.width /\ Len(e.rs) = 16 * e.width
+                  /\ \A i \in 1..e.width :
+                        e.outs[i] = OutOf(IF inr THEN R(e.rs[e.width * j + i]) ELSE Zero))
+
 (* ---- scalar splitting (C11): relational, with the documented correction ---- *)
 T128 == Pow2(128)
 Corr(c, a) == \* c + a*2^128 modulo q, a a small TLC integer
@@ -162,7 +173,7 @@ Next ==
     \/ DoDiv \/ DoInvert \/ DoBatchInvert \/ DoLegendre \/ DoSqrt
     \/ DoEncode \/ DoEquals \/ DoIsZero
     \/ DoDecodeCt \/ DoDecode \/ DoDecodeReduce
-    \/ DoSetCond \/ DoSelect \/ DoCSwap
+    \/ DoSetCond \/ DoSelect \/ DoCSwap \/ DoLookup16
     \/ DoSplit
 
 Spec == Init /\ [][Next]_vars
